@@ -342,6 +342,7 @@ class TestResolveExternalLocation:
 
     def test_rejected_object_delivers_no_logs(self) -> None:
         """An object that fails validation hands nothing to on_log (it used to deliver its logs first)."""
+        pytest.importorskip("tenacity")
         storage = MockStorage()
         config = ExternalLocationConfig(storage=storage, max_retries=0)
 
@@ -383,6 +384,7 @@ class TestResolveExternalLocation:
 
     def test_retried_attempts_do_not_redeliver_logs(self) -> None:
         """A truncated object is retried; its log batch must not reach on_log once per attempt."""
+        pytest.importorskip("tenacity")
         storage = MockStorage()
         config = ExternalLocationConfig(storage=storage, max_retries=2, retry_delay_seconds=0.0)
 
@@ -975,6 +977,7 @@ class TestSHA256Checksum:
 
     def test_client_upload_pointer_carries_sha256(self) -> None:
         """The HTTP client's upload-URL pointer carries the digest of the uploaded request body."""
+        pytest.importorskip("tenacity")
         import hashlib
 
         from vgi_rpc.http._client import _build_pointer_request_body
